@@ -280,6 +280,15 @@ func main() {
 				sch.Release(st.A)
 				sch.Settle(st.A, 3*time.Millisecond)
 			}
+			// the model's "arm" clears a pending notification and arms the timer in one step; the code needs one more
+			// pass through its loop per pending notification before it waits on the timer
+			for i := 0; st.A == "sh" && st.K == "arm" && i < 3; i++ {
+				if p, at := sch.IsParked("sh"); !p || at != "sched.arm" {
+					break
+				}
+				sch.Release("sh")
+				sch.Settle("sh", 3*time.Millisecond)
+			}
 		case "end":
 			a := fmt.Sprintf("t%d", st.T)
 			if sch.Await(a, 4*time.Millisecond, nil) {
